@@ -8,7 +8,7 @@ variable (d : Dict) (l : LenTy)
 /-- one step of the validating walk, inverted -/
 inductive FlexStep (os : Nat) (f pos : Nat) (data : Slice) : Prop
   | term (h : l.readU data = .ok 0)
-  | last (next : Nat) (hr : l.readU data = .ok next) (hn : next ≠ 0) (hmax : next = l.max) (h1 : os ≤ next)
+  | last (next : Nat) (hr : l.readU data = .ok next) (hn : next ≠ 0) (hmax : next = l.max)
       (h2 : os ≤ data.len) (hv : d.validate (data.drop os) = .ok ())
   | item (next : Nat) (hr : l.readU data = .ok next) (hn : next ≠ 0) (hmax : next ≠ l.max) (h1 : os ≤ next)
       (h2 : next ≤ data.len) (hv : d.validate ((data.take next).drop os) = .ok ())
@@ -38,7 +38,6 @@ theorem flexValidate_inv (os f pos : Nat) (data : Slice) (h : flexValidate d l o
           split at h
           · simp at h
           · rename_i hge0
-            have hge : os ≤ next := by omega
             split at h
             · simp at h
             · rename_i hcond
@@ -48,9 +47,12 @@ theorem flexValidate_inv (os f pos : Nat) (data : Slice) (h : flexValidate d l o
               · rename_i hlast
                 have h2 : os ≤ data.len := by omega
                 simp only [Slice.splitAt, h2, if_true] at h
-                exact .last next hr hnz (by simpa using hlast) hge h2 (Res.offset_eq_ok.1 h)
+                exact .last next hr hnz (by simpa using hlast) h2 (Res.offset_eq_ok.1 h)
               · rename_i hlast
                 have hne : next ≠ l.max := by simpa using hlast
+                have hge : os ≤ next := by
+                  have := fun hh => hge0 ⟨hne, hh⟩
+                  omega
                 have hnd : next ≤ data.len := by
                   have := hcond.2 (by simpa using hne); omega
                 simp only [Slice.splitAt, hnd, if_true] at h
@@ -77,15 +79,14 @@ theorem flexSize_term (os al f pos : Nat) (data : Slice) (hr : l.readU data = .o
 
 theorem flexValidate_last (os f pos next : Nat) (data : Slice) (hal : data.addr % max l.align d.align = 0)
     (hla : data.addr % l.align = 0) (hlen : l.size ≤ data.len) (hr : l.readU data = .ok next) (hn : next ≠ 0)
-    (hmax : next = l.max) (h1 : os ≤ next) (h2 : os ≤ data.len) (hv : d.validate (data.drop os) = .ok ()) :
+    (hmax : next = l.max) (h2 : os ≤ data.len) (hv : d.validate (data.drop os) = .ok ()) :
     flexValidate d l os (f+1) pos data = .ok () := by
   unfold flexValidate
   have hc : checkAlignMin l.align l.size data = .ok () := checkAlignMin_ok.2 ⟨hla, hlen⟩
-  have c1 : ¬ os > next := by omega
   have c2 : ¬ os > data.len := by omega
   subst hmax
   have hn' : ¬ l.max = 0 := hn
-  simp [hal, hc, hr, hn', c1, c2, Slice.splitAt, h2, hv]
+  simp [hal, hc, hr, hn', c2, Slice.splitAt, h2, hv]
 
 theorem flexSize_last (os al f pos next : Nat) (data : Slice) (hr : l.readU data = .ok next) (hn : next ≠ 0)
     (hmax : next = l.max) (h2 : os ≤ data.len) (z : Nat) (hz : d.size (data.drop os) = .ok z) :
@@ -115,7 +116,7 @@ end Flex
 /-- the walk, unfolded once, for a slot that is readable and not the terminator -/
 theorem flexValidate_unfold (d : Dict) (l : LenTy) (os f pos next : Nat) (data : Slice)
     (hal : data.addr % max l.align d.align = 0) (hla : data.addr % l.align = 0) (hlen : l.size ≤ data.len)
-    (hr : l.readU data = .ok next) (hn : next ≠ 0) (hge : os ≤ next) :
+    (hr : l.readU data = .ok next) (hn : next ≠ 0) (hge : next = l.max ∨ os ≤ next) :
     flexValidate d l os (f+1) pos data =
       if os > data.len ∨ (next ≠ l.max ∧ next > data.len) then .err ⟨.insufficientSize, pos + os⟩
       else if next = l.max then (d.validate (data.drop os)).offset (pos + os)
@@ -124,7 +125,10 @@ theorem flexValidate_unfold (d : Dict) (l : LenTy) (os f pos next : Nat) (data :
         | r => r := by
   conv => lhs; unfold flexValidate
   have hc : checkAlignMin l.align l.size data = .ok () := checkAlignMin_ok.2 ⟨hla, hlen⟩
-  have hng : ¬ os > next := by omega
+  have hng : ¬ (next ≠ l.max ∧ os > next) := by
+    rcases hge with h | h
+    · exact fun hh => hh.1 h
+    · exact fun hh => absurd hh.2 (by omega)
   simp only [hal, ne_eq, not_true_eq_false, if_false, hc, hr, hn, hng]
   by_cases hcond : os > data.len ∨ (next ≠ l.max ∧ next > data.len)
   · have : (decide (os > data.len) || !decide (next = l.max) && decide (next > data.len)) = true := by
@@ -255,7 +259,7 @@ theorem flex_chain :
             omega
           · have : d.align * 1 ≤ d.align * c := Nat.mul_le_mul_left _ h0
             omega
-    | last next hr hn hmax h1 h2 hvp =>
+    | last next hr hn hmax h2 hvp =>
       obtain ⟨hpa', hpmin, hpv⟩ := validate_ok_iff.1 hvp
       obtain ⟨zd, hzd, hzle, _, hzmin⟩ := hfd.size_ok _ hpa' hpmin hpv
       simp only [Slice.len_drop] at hzle hpmin
@@ -280,7 +284,7 @@ theorem flex_chain :
           have hv' : d.validate (data'.drop (max l.size d.align)) = .ok () :=
             validate_ok_iff.2 ⟨by simpa [ha] using hpa', by simp only [Slice.len_drop]; omega, hloc.1⟩
           refine ⟨flexValidate_last d l _ f' pos' next data' (by rw [ha]; exact hal) (by rw [ha]; exact hla) (by omega)
-            hr' hn hmax h1 (by omega) hv', ?_⟩
+            hr' hn hmax (by omega) hv', ?_⟩
           rw [flexSize_last d l _ _ f' pos' next data' hr' hn hmax (by omega) zd hloc.2]; congr 1; omega
       · intro k f' pos' hk hkm hf'
         by_cases hks : k < l.size
@@ -292,7 +296,7 @@ theorem flex_chain :
             have hr' : l.readU (data.take k) = .ok next := by
               rw [readU_congr l data (data.take k) rfl hlen (by omega)
                 (by simp only [Slice.take, List.take_take]; congr 1; omega)]; exact hr
-            rw [flexValidate_unfold d l _ f' pos' next (data.take k) (by simpa using hal) (by simpa using hla) (by omega) hr' hn h1]
+            rw [flexValidate_unfold d l _ f' pos' next (data.take k) (by simpa using hal) (by simpa using hla) (by omega) hr' hn (Or.inl hmax)]
             by_cases hko : k < max l.size d.align
             · have : max l.size d.align > (data.take k).len ∨
                   (next ≠ l.max ∧ next > (data.take k).len) := Or.inl (by omega)
@@ -365,7 +369,7 @@ theorem flex_chain :
             have hr' : l.readU (data.take k) = .ok next := by
               rw [readU_congr l data (data.take k) rfl hlen (by omega)
                 (by simp only [Slice.take, List.take_take]; congr 1; omega)]; exact hr
-            rw [flexValidate_unfold d l _ f' pos' next (data.take k) (by simpa using hal) (by simpa using hla) (by omega) hr' hn h1]
+            rw [flexValidate_unfold d l _ f' pos' next (data.take k) (by simpa using hal) (by simpa using hla) (by omega) hr' hn (Or.inr h1)]
             by_cases hkn : k < next
             · have : max l.size d.align > (data.take k).len ∨
                   (next ≠ l.max ∧ next > (data.take k).len) := Or.inr ⟨hmax, by omega⟩
